@@ -258,6 +258,23 @@ fn case(tier: Tier, case_no: usize, rng: &mut Rng, rep: &mut Report) {
                 }
             }
             returned_all.extend(returned.iter().cloned());
+        } else {
+            // discard policy: what went through the sink is dropped from memory; a query that failed in the input plugins
+            // never reaches the sink, so the returned vector is the only place where its error response exists
+            let mut got_by_key: BTreeMap<String, Vec<Value>> = BTreeMap::new();
+            for r in &returned {
+                got_by_key.entry(key_of(r)).or_default().push(r.clone());
+            }
+            for (k, refs) in &ref_by_key {
+                let want = refs.iter().filter(|r| is_input_failure(r)).count();
+                let got = got_by_key.get(k).map(|v| v.len()).unwrap_or(0);
+                if got < want {
+                    rep.violate(&format!("C19|returned-responses|discard-policy|input-failure-has-no-response-anywhere|{fmt}"), format!("W2 {k}: failed in the input plugins (never written to the file) and {got} of {want} error responses were handed back"), replay);
+                    all_ok = false;
+                    break;
+                }
+            }
+            rep.count("discard_policy_runs", 1);
         }
         rep.count("sink_runs", 1);
         rep.count("hook_events_observed", trace.n_events as u64);
